@@ -381,6 +381,52 @@ fn o13_1_weak_delete_n3() {
 
 
 // =============================================================================================
+// O8.5: the stream's decisions do not depend on whether a value is stored inline or as a pointer
+// =============================================================================================
+
+/// Same entries, once with inline values and once with some of them turned into `Indirection`s
+/// (what a key-value separated tree stores for the same history): the stream must keep / drop exactly
+/// the same positions - otherwise the two trees answer differently.
+fn o8_5<const N: usize>() {
+    let mut a: [E; N] = [any_e(true); N];
+    let mut b: [E; N] = a;
+    for i in 0..N {
+        a[i] = any_e(true);
+        kani::assume(a[i].t != ValueType::Indirection);
+        b[i] = a[i];
+        if a[i].t == ValueType::Value && kani::any() {
+            b[i].t = ValueType::Indirection;
+        }
+    }
+    kani::assume(sorted(&a));
+    let watermark: u64 = kani::any();
+    let evict: bool = kani::any();
+    let oa = run_stream(&a, watermark, evict);
+    let ob = run_stream(&b, watermark, evict);
+    for i in 0..N {
+        match (oa[i], ob[i]) {
+            (None, None) => {}
+            (Some(x), Some(y)) => {
+                assert!(x.k == y.k && x.s == y.s, "separated and inline trees keep different entries");
+                let same_kind = x.t == y.t || (x.t == ValueType::Value && y.t == ValueType::Indirection);
+                assert!(same_kind, "separated and inline trees keep entries of different kinds");
+            }
+            _ => panic!("a compaction keeps a different number of entries when values are separated"),
+        }
+    }
+    kani::cover!(N >= 2 && a[0].t == ValueType::WeakTombstone && b[1].t == ValueType::Indirection && oa[0].is_none(), "weak tombstone cancels an inline value that is a pointer on the other side");
+    kani::cover!(b[0].t == ValueType::Indirection && ob[0].is_some());
+}
+
+#[kani::proof]
+#[kani::unwind(4)]
+#[kani::stub(alloc::sync::Arc::drop_slow, crate::vk_common::arc_drop_slow_stub)]
+#[kani::stub(std::alloc::handle_alloc_error, crate::vk_common::alloc_err_stub)]
+fn o8_5_separation_invisible_to_stream_n2() {
+    o8_5::<2>();
+}
+
+// =============================================================================================
 // O9.1 / O17.1: dropped callback and filter verdicts
 // =============================================================================================
 
